@@ -20,8 +20,8 @@ PROPS["C11"] = dict(
               "WgslVerif.C11_total", "WgslVerif.C11_exec", "WgslVerif.firstClash_none", "WgslVerif.firstClash_some",
               "WgslVerif.denseB_iff"],
     streams=lambda tier, seed: (
-        [("fixtures",), ("c11", 3, 2, 3), ("c11long",), ("c11rand", seed, 400), ("gen", "bindings", seed, 200)] if tier == "quick" else
-        [("fixtures",), ("c11", 3, 3, 4), ("c11", 4, 4, 3), ("c11long",), ("c11rand", seed, 5000), ("gen", "bindings", seed, 3000)]),
+        [("fixtures",), ("provoke",), ("c11", 3, 2, 3), ("c11long",), ("c11rand", seed, 400), ("gen", "bindings", seed, 200)] if tier == "quick" else
+        [("fixtures",), ("provoke",), ("c11", 3, 3, 4), ("c11", 4, 4, 3), ("c11long",), ("c11rand", seed, 5000), ("gen", "bindings", seed, 3000)]),
     # validation off / on (option index bit layout: see harness/src/run.rs Opts::from_index)
     opts=q_opts([0, 48], [0, 48, 21, 90]),
     rule="cases: repo fixtures + every sequence (ordered, with repetition) of (@group,@binding) pairs over a small grid "
@@ -71,7 +71,8 @@ def extra_c20(pid, tier, seed, workdir, known, write_replay):
     depths = [4, 8, 12, 16, 20, 24, 32, 48, 64] if tier == "quick" else [2, 4, 6, 8, 10, 12, 14, 16, 18, 20, 22, 24, 28, 32, 40, 48, 56, 64]
     specs = [(f, n) for f in ("chain", "chainv", "diamond", "diamondpure", "diamondvoid", "diamondptr", "nested") for n in depths] + [("fanout", n) for n in (8, 64, 200)] + \
             [("chain", 200), ("chainv", 200), ("nestedifs", 14), ("nestedifs", 40)] + \
-            [("nestedarr", n) for n in (4, 8, 12, 16, 20, 24)] + [("nesteddeep", n) for n in (16, 17, 32, 64)]
+            [("nestedarr", n) for n in (4, 8, 12, 16, 20, 24)] + [("nesteddeep", n) for n in (16, 17, 32, 64)] + \
+            [("elseif", n) for n in (8, 16, 24, 32, 48, 64)] + [("overrideladder", n) for n in (8, 16, 24, 32, 48)]
     cases = family_cases(specs)
     timeout_s = 20
     results = []
@@ -117,12 +118,12 @@ PROPS["C03"] = dict(
               "WgslVerif.callsEarlierB_sound", "WgslVerif.reach_iff_reachS", "WgslVerif.entryUses_iff",
               "WgslVerif.mem_callsOf_evFn", "WgslVerif.mem_usesOf_evFn"],
     streams=lambda tier, seed: (
-        [("fixtures",), ("names",), ("gen", "callgraph", seed, 500), ("gen", "general", seed, 300), ("gen", "textures", seed, 100),
+        [("fixtures",), ("provoke",), ("names",), ("gen", "callgraph", seed, 500), ("gen", "general", seed, 300), ("gen", "textures", seed, 100),
          ("gen", "entries", seed, 100), ("family", "diamond", 5), ("family", "fanout", 12), ("family", "chainv", 9), ("family", "chain", 200), ("family", "chainv", 160), ("family", "nestedifs", 14),
-         ("family", "diamondptr", 6), ("pc", 3)] if tier == "quick" else
-        [("fixtures",), ("names",), ("pc", 4), ("gen", "callgraph", seed, 12000), ("gen", "general", seed, 8000), ("gen", "textures", seed, 2000),
+         ("family", "diamondptr", 6), ("family", "elseif", 70), ("pc", 3)] if tier == "quick" else
+        [("fixtures",), ("provoke",), ("names",), ("pc", 4), ("gen", "callgraph", seed, 12000), ("gen", "general", seed, 8000), ("gen", "textures", seed, 2000),
          ("gen", "entries", seed, 2000), ("gen", "scale", seed, 400), ("family", "diamond", 7), ("family", "fanout", 40), ("family", "chain", 200), ("family", "chainv", 160),
-         ("family", "nestedifs", 14), ("family", "diamondptr", 8)]),
+         ("family", "nestedifs", 14), ("family", "diamondptr", 8), ("family", "elseif", 70), ("family", "elseif", 100)]),
     opts=q_opts([0, 48], [0, 48, 21, 90]),
     rule="cases: fixtures + structured generator profiles callgraph/general/textures/entries (helper DAGs: chains, diamonds, shared helpers, "
          "fan-out; accesses and calls in if/else, switch, loop, continuing, break-if, nested blocks, value-returning calls in expressions; "
@@ -137,8 +138,8 @@ PROPS["C20"] = dict(
     theorems=["WgslVerif.C20_stage_fn_visits", "WgslVerif.C20_stage_stmt_visits", "WgslVerif.typeVisits_bound", "WgslVerif.Legacy.chain_blowup",
               "WgslVerif.nodup_lt_length"],
     streams=lambda tier, seed: (
-        [("fixtures",), ("gen", "callgraph", seed, 300), ("gen", "structs", seed, 200), ("gen", "scale", seed, 40)] if tier == "quick" else
-        [("fixtures",), ("gen", "callgraph", seed, 5000), ("gen", "structs", seed, 3000), ("gen", "scale", seed, 600), ("gen", "general", seed, 3000)]),
+        [("fixtures",), ("provoke",), ("gen", "callgraph", seed, 300), ("gen", "structs", seed, 200), ("gen", "scale", seed, 40)] if tier == "quick" else
+        [("fixtures",), ("provoke",), ("gen", "callgraph", seed, 5000), ("gen", "structs", seed, 3000), ("gen", "scale", seed, 600), ("gen", "general", seed, 3000)]),
     opts=q_opts([4, 52], [4, 52, 21]),
     extra=extra_c20,
     rule="cases: fixtures + generator profiles callgraph/structs/scale compared on hook visit counters (update_stages calls, statements walked, "
@@ -172,8 +173,8 @@ PROPS["C09"] = dict(
     lean_modules=["WgslVerif.Props.C09"],
     theorems=["WgslVerif.C09", "WgslVerif.C09_rustStruct", "WgslVerif.C09_noninterference", "WgslVerif.C09_panics", "WgslVerif.deriveListB_table"],
     streams=lambda tier, seed: (
-        [("fixtures",), ("types", 10, seed), ("gen", "structs", seed, 60), ("gen", "vertex", seed, 30), ("gen", "general", seed, 30)] if tier == "quick" else
-        [("fixtures",), ("types",), ("gen", "structs", seed, 1500), ("gen", "vertex", seed, 500), ("gen", "general", seed, 500)]),
+        [("fixtures",), ("provoke",), ("types", 10, seed), ("gen", "structs", seed, 60), ("gen", "vertex", seed, 30), ("gen", "general", seed, 30)] if tier == "quick" else
+        [("fixtures",), ("provoke",), ("types",), ("gen", "structs", seed, 1500), ("gen", "vertex", seed, 500), ("gen", "general", seed, 500)]),
     # all 2^4 derive switches x 3 representations x validation off/on
     opts=q_opts(ALL_OPTS[:48] + [48, 63, 79, 95], ALL_OPTS),
     rule="cases: fixtures + generator profiles structs/vertex/general, each under ALL 2^4 derive-switch combinations x 3 representations (x validation on/off in the thorough tier); "
@@ -187,8 +188,8 @@ PROPS["C04"] = dict(
     theorems=["WgslVerif.C04", "WgslVerif.groupFacts_spec", "WgslVerif.layoutFields_spec", "WgslVerif.bindEntries_spec",
               "WgslVerif.layoutEntries_binding", "WgslVerif.C11_ok_content", "WgslVerif.C11_exec"],
     streams=lambda tier, seed: (
-        [("fixtures",), ("names",), ("c11long",), ("gen", "bindings", seed, 300), ("gen", "general", seed, 300), ("gen", "textures", seed, 150), ("c11rand", seed, 200)] if tier == "quick" else
-        [("fixtures",), ("names",), ("c11long",), ("gen", "bindings", seed, 6000), ("gen", "general", seed, 6000), ("gen", "textures", seed, 3000), ("c11rand", seed, 4000), ("gen", "scale", seed, 300)]),
+        [("fixtures",), ("provoke",), ("names",), ("c11long",), ("gen", "bindings", seed, 300), ("gen", "general", seed, 300), ("gen", "textures", seed, 150), ("c11rand", seed, 200)] if tier == "quick" else
+        [("fixtures",), ("provoke",), ("names",), ("c11long",), ("gen", "bindings", seed, 6000), ("gen", "general", seed, 6000), ("gen", "textures", seed, 3000), ("c11rand", seed, 4000), ("gen", "scale", seed, 300)]),
     opts=q_opts([0, 48], [0, 48, 21, 90]),
     rule="cases: fixtures + generator profiles bindings/general/textures + random binding multisets (1..8 groups, sparse / unordered / u32-extreme binding indices, declaration order "
          "unrelated to index order, all resource kinds); non-trivial = at least one bound variable and generation succeeded; distinct = distinct WGSL text",
@@ -200,8 +201,8 @@ PROPS["C13"] = dict(
     lean_modules=["WgslVerif.Props.C13"],
     theorems=["WgslVerif.C13", "WgslVerif.C13_stages_used", "WgslVerif.C13_stages_unused", "WgslVerif.C03_present", "WgslVerif.C03_entryStages"],
     streams=lambda tier, seed: (
-        [("fixtures",), ("names",), ("pc", 4), ("gen", "general", seed, 400), ("gen", "entries", seed, 150), ("gen", "callgraph", seed, 150)] if tier == "quick" else
-        [("fixtures",), ("names",), ("pc", 5), ("gen", "general", seed, 15000), ("gen", "entries", seed, 4000), ("gen", "callgraph", seed, 4000)]),
+        [("fixtures",), ("provoke",), ("names",), ("pc", 4), ("gen", "general", seed, 400), ("gen", "entries", seed, 150), ("gen", "callgraph", seed, 150)] if tier == "quick" else
+        [("fixtures",), ("provoke",), ("names",), ("pc", 5), ("gen", "general", seed, 15000), ("gen", "entries", seed, 4000), ("gen", "callgraph", seed, 4000)]),
     opts=q_opts([0, 48], [0, 48, 21, 90]),
     rule="cases: fixtures + EVERY sequence of entry-point stages up to length 4 (5 thorough) x {unused, used by first / last / middle entry, through helper chains, inside continuing blocks} x 7 push-constant types "
          "+ generator profiles general/entries/callgraph (push constants of scalar, vector, matrix, padded struct, array type; used directly, through helper chains, "
@@ -227,8 +228,8 @@ PROPS["C15"] = dict(
     lean_modules=["WgslVerif.Props.C15"],
     theorems=["WgslVerif.C15", "WgslVerif.C15_legacy_counterexample", "WgslVerif.C15_skip", "WgslVerif.constTypeAndValue_spec"],
     streams=lambda tier, seed: (
-        [("fixtures",), ("names",), ("gen", "consts", seed, 600), ("gen", "general", seed, 300)] if tier == "quick" else
-        [("fixtures",), ("names",), ("gen", "consts", seed, 15000), ("gen", "general", seed, 6000)]),
+        [("fixtures",), ("provoke",), ("names",), ("gen", "consts", seed, 600), ("gen", "general", seed, 300)] if tier == "quick" else
+        [("fixtures",), ("provoke",), ("names",), ("gen", "consts", seed, 15000), ("gen", "general", seed, 6000)]),
     opts=q_opts([0, 48], [0, 48, 21, 90]),
     rule="cases: fixtures + generator profiles consts/general (explicit and inferred types, constant expressions, references to other constants, negative values, extremes, subnormals, "
          "-0.0, f64, bool, non-scalar constants); non-trivial = at least one module constant; distinct = distinct WGSL text",
@@ -240,8 +241,8 @@ PROPS["C12"] = dict(
     lean_modules=["WgslVerif.Props.C12"],
     theorems=["WgslVerif.C12", "WgslVerif.C12_required_resolves", "WgslVerif.C12_optional_resolves", "WgslVerif.overrideEntry_spec", "WgslVerif.overrideFieldType_spec", "WgslVerif.mapGet_unique"],
     streams=lambda tier, seed: (
-        [("fixtures",), ("names",), ("variants",), ("gen", "consts", seed, 600), ("gen", "general", seed, 300), ("gen", "entries", seed, 100)] if tier == "quick" else
-        [("fixtures",), ("names",), ("variants",), ("gen", "consts", seed, 15000), ("gen", "general", seed, 6000), ("gen", "entries", seed, 2000)]),
+        [("fixtures",), ("provoke",), ("names",), ("variants",), ("gen", "consts", seed, 600), ("gen", "general", seed, 300), ("gen", "entries", seed, 100)] if tier == "quick" else
+        [("fixtures",), ("provoke",), ("names",), ("variants",), ("gen", "consts", seed, 15000), ("gen", "general", seed, 6000), ("gen", "entries", seed, 2000)]),
     opts=q_opts([0, 48], [0, 48, 21, 90]),
     rule="cases: fixtures + generator profiles consts/general/entries (overrides of bool/i32/u32/f32, with and without default, with and without @id, defaults depending on other overrides); "
          "non-trivial = at least one override; distinct = distinct WGSL text",
@@ -323,7 +324,7 @@ def classify_and_report(pid, items, known, write_replay, case_by_id):
 def extra_c02(pid, tier, seed, workdir, known, write_replay):
     """the REAL wgpu-core 24.0.5 shader-interface validation on the REAL generated layouts (harness oracle_wgpu)"""
     n = 1 if tier == "quick" else 12
-    streams = [("fixtures",), ("names",), ("gen", "textures", seed, 250 * n), ("gen", "general", seed, 250 * n), ("gen", "callgraph", seed, 100 * n), ("gen", "bindings", seed, 100 * n)]
+    streams = [("fixtures",), ("names",), ("pc", 2), ("family", "elseif", 70), ("gen", "textures", seed, 250 * n), ("gen", "general", seed, 250 * n), ("gen", "callgraph", seed, 100 * n), ("gen", "bindings", seed, 100 * n)]
     out, case_by_id = run_tool_on_streams([os.path.join(BIN, "oracle_wgpu")], streams, workdir, "oracle")
     # the same with validation on (WriteOptions.validate = Some): generation may take another path there
     out48, _ = run_tool_on_streams([os.path.join(BIN, "oracle_wgpu"), "--opts", "48"],
@@ -413,8 +414,8 @@ PROPS["C02"] = dict(
     lean_modules=["WgslVerif.Props.C02"],
     theorems=["WgslVerif.C02_partial", "WgslVerif.C02_pipeline", "WgslVerif.C02_counterexample", "WgslVerif.bindingType_accepted", "WgslVerif.classArm_spec", "WgslVerif.viewDim_matches"],
     streams=lambda tier, seed: (
-        [("fixtures",), ("names",), ("gen", "textures", seed, 400), ("gen", "general", seed, 300), ("gen", "bindings", seed, 100)] if tier == "quick" else
-        [("fixtures",), ("names",), ("gen", "textures", seed, 8000), ("gen", "general", seed, 6000), ("gen", "bindings", seed, 2000), ("gen", "scale", seed, 200)]),
+        [("fixtures",), ("provoke",), ("names",), ("pc", 2), ("family", "elseif", 70), ("gen", "textures", seed, 400), ("gen", "general", seed, 300), ("gen", "bindings", seed, 100)] if tier == "quick" else
+        [("fixtures",), ("provoke",), ("names",), ("pc", 3), ("family", "elseif", 70), ("gen", "textures", seed, 8000), ("gen", "general", seed, 6000), ("gen", "bindings", seed, 2000), ("gen", "scale", seed, 200)]),
     opts=q_opts([0, 48], [0, 48, 21, 90]),
     extra=extra_c02,
     rule="cases: fixtures + generator profiles textures/general/bindings: uniform / storage(read, read_write) buffers of struct, array, runtime array, scalar, vector, matrix type; every sampled / "
@@ -430,8 +431,8 @@ PROPS["C05"] = dict(
     lean_modules=["WgslVerif.Props.C05"],
     theorems=["WgslVerif.C05", "WgslVerif.C05_complete", "WgslVerif.C05_sound", "WgslVerif.find_struct_by_name", "WgslVerif.offsetAsserts_eq"],
     streams=lambda tier, seed: (
-        [("fixtures",), ("types",), ("names",), ("variants",), ("gen", "structs", seed, 400), ("gen", "general", seed, 200), ("gen", "vertex", seed, 100)] if tier == "quick" else
-        [("fixtures",), ("types",), ("names",), ("variants",), ("gen", "structs", seed, 10000), ("gen", "general", seed, 5000), ("gen", "vertex", seed, 2000), ("gen", "scale", seed, 300)]),
+        [("fixtures",), ("provoke",), ("types",), ("names",), ("variants",), ("gen", "structs", seed, 400), ("gen", "general", seed, 200), ("gen", "vertex", seed, 100)] if tier == "quick" else
+        [("fixtures",), ("provoke",), ("types",), ("names",), ("variants",), ("gen", "structs", seed, 10000), ("gen", "general", seed, 5000), ("gen", "vertex", seed, 2000), ("gen", "scale", seed, 300)]),
     opts=q_opts([2, 6, 18, 34, 1, 50], [2, 6, 18, 34, 1, 50, 15, 47, 95]),
     rule="cases: fixtures + generator profiles structs/general/vertex (scalars, vec2/3/4, all matrix shapes, fixed arrays incl. of vec3/matrices/structs, nested structs, atomics, "
          "vec3-then-scalar packing, @align/@size) x 3 representations with bytemuck host-shareable on (and off); non-trivial = at least one struct emitted; distinct = distinct WGSL text",
@@ -444,8 +445,8 @@ PROPS["C06"] = dict(
     lean_modules=["WgslVerif.Props.C06", "WgslVerif.Props.C06Repr"],
     theorems=["WgslVerif.C06", "WgslVerif.C06_denote", "WgslVerif.C06_repr", "WgslVerif.C06_fields", "WgslVerif.C06'"],
     streams=lambda tier, seed: (
-        [("fixtures",), ("types",), ("names",), ("variants",), ("gen", "structs", seed, 400), ("gen", "general", seed, 200), ("gen", "vertex", seed, 100)] if tier == "quick" else
-        [("fixtures",), ("types",), ("names",), ("variants",), ("gen", "structs", seed, 10000), ("gen", "general", seed, 5000), ("gen", "vertex", seed, 2000), ("gen", "scale", seed, 300)]),
+        [("fixtures",), ("provoke",), ("types",), ("names",), ("variants",), ("gen", "structs", seed, 400), ("gen", "general", seed, 200), ("gen", "vertex", seed, 100)] if tier == "quick" else
+        [("fixtures",), ("provoke",), ("types",), ("names",), ("variants",), ("gen", "structs", seed, 10000), ("gen", "general", seed, 5000), ("gen", "vertex", seed, 2000), ("gen", "scale", seed, 300)]),
     opts=q_opts([4, 20, 36, 52, 18, 22, 17, 12], [4, 20, 36, 52, 68, 84, 18, 22, 2, 34, 17, 33, 12, 28]),
     rule="cases: fixtures + generator profiles structs/general/vertex under the three representations (encase on so that runtime arrays are emitted); all member types and nestings "
          "(arrays of arrays, arrays of structs, structs in structs, atomics, trailing runtime arrays, interleaved builtins); non-trivial = at least one struct emitted; distinct = distinct WGSL text",
@@ -457,8 +458,8 @@ PROPS["C16"] = dict(
     lean_modules=["WgslVerif.Props.C16"],
     theorems=["WgslVerif.C16", "WgslVerif.C16_literal_roundtrip", "WgslVerif.C16_include_only_source", "WgslVerif.RustLex.unesc_of_esc"],
     streams=lambda tier, seed: (
-        [("fixtures",), ("names",), ("gen", "unicode", seed, 400), ("gen", "general", seed, 150), ("genpath", "unicode", seed, 100), ("genpath", "general", seed, 100)] if tier == "quick" else
-        [("fixtures",), ("names",), ("gen", "unicode", seed, 10000), ("gen", "general", seed, 3000), ("genpath", "unicode", seed, 2000), ("genpath", "general", seed, 2000)]),
+        [("fixtures",), ("provoke",), ("names",), ("gen", "unicode", seed, 400), ("gen", "general", seed, 150), ("genpath", "unicode", seed, 100), ("genpath", "general", seed, 100)] if tier == "quick" else
+        [("fixtures",), ("provoke",), ("names",), ("gen", "unicode", seed, 10000), ("gen", "general", seed, 3000), ("genpath", "unicode", seed, 2000), ("genpath", "general", seed, 2000)]),
     opts=q_opts([0, 48], [0, 48, 21, 90]),
     rule="cases: fixtures + generator profile unicode (quotes, backslashes, braces, CR/LF, NUL and other control characters, non-ASCII and non-BMP text in comments and identifiers) + general, "
          "embedded and with include paths (spaces, backslashes, quotes, non-ASCII, empty); every real literal token is unescaped by RustLex.unescapeToken AND decoded by syn, both compared with the source; "
@@ -605,7 +606,7 @@ def extra_c16(pid, tier, seed, workdir, known, write_replay):
 
 PROPERTY_FAULTS = ["absent", "exit1-after-drain", "exit1-no-read", "kill-self", "kill-before-read", "kill-after-partial-output", "exit1-after-partial-output",
                    "exit0-no-read-empty", "exit0-drain-empty", "slow-ok", "fail-once-partial-then-real", "exit1-noisy-stderr-0", "exit1-noisy-stderr-1",
-                   "exit1-no-read-x6", "kill-before-read-x6", "real-with-RUSTFMT-env", "real"]
+                   "exit1-no-read-x6", "kill-before-read-x6", "real-with-RUSTFMT-env", "real-with-RUSTFMT-env-empty", "real-with-RUSTFMT-env-blank", "real-with-RUSTFMT-env-args", "real"]
 
 
 def extra_c19(pid, tier, seed, workdir, known, write_replay):
@@ -669,7 +670,7 @@ def extra_c19(pid, tier, seed, workdir, known, write_replay):
 def extra_c18(pid, tier, seed, workdir, known, write_replay):
     n = 1 if tier == "quick" else 10
     # the first cases carry an include path (create_shader_module): the strace run covers `--strace-limit` cases from the front
-    cases = write_stream_file([("genpath", "general", seed, 12 * n), ("fixtures",), ("gen", "general", seed, 120 * n), ("gen", "structs", seed, 80 * n)], os.path.join(workdir, "det.cases"))
+    cases = write_stream_file([("genpath", "general", seed, 21 * n), ("provoke",), ("fixtures",), ("gen", "general", seed, 120 * n), ("gen", "structs", seed, 80 * n)], os.path.join(workdir, "det.cases"))
     args = [os.path.join(BIN, "determinism"), "--cases", cases, "--opts", "0,6,21,38,47" if tier == "quick" else "0,6,21,38,47,53,90,15", "--strace"]
     r = subprocess.run(args, stdout=subprocess.PIPE, stderr=subprocess.PIPE, text=True)
     items, cov = [], {}
@@ -706,7 +707,7 @@ def extra_c18(pid, tier, seed, workdir, known, write_replay):
         items.append(("determinism#harness-big", "determinism (large, rustfmt on) gave no summary: " + rb.stderr[-300:], "", False))
     # a formatter that merely takes long (6 s) must give byte for byte what a fast one gives
     fx = write_stream_file([("fixtures",)], os.path.join(workdir, "slow.cases"))
-    trials, err = run_faults(fx, 1, 0, ["real", "slow-6s-ok", "real-with-RUSTFMT-env"], timeout=60)
+    trials, err = run_faults(fx, 1, 0, ["real", "slow-6s-ok", "real-with-RUSTFMT-env", "real-with-RUSTFMT-env-empty", "real-with-RUSTFMT-env-blank", "real-with-RUSTFMT-env-args"], timeout=60)
     by = {}
     for cid, size, fault, oc, detail, same, th in trials:
         by.setdefault(cid, {})[fault] = (oc, th)
@@ -716,8 +717,9 @@ def extra_c18(pid, tier, seed, workdir, known, write_replay):
             nslow += 1
             if d["real"] != d["slow-6s-ok"]:
                 items.append(("determinism#slow-formatter", f"case {cid}: with a formatter that takes 6 s the result is {d['slow-6s-ok']}, with a fast one {d['real']}", cid, True))
-        if "real" in d and "real-with-RUSTFMT-env" in d and d["real"] != d["real-with-RUSTFMT-env"]:
-            items.append(("determinism#RUSTFMT-environment-variable", f"case {cid}: with the environment variable RUSTFMT set the result is {d['real-with-RUSTFMT-env']}, without it {d['real']}", cid, True))
+        for envf in ("real-with-RUSTFMT-env", "real-with-RUSTFMT-env-empty", "real-with-RUSTFMT-env-blank", "real-with-RUSTFMT-env-args"):
+            if "real" in d and envf in d and d["real"] != d[envf]:
+                items.append(("determinism#RUSTFMT-environment-variable", f"case {cid}: with the environment variable RUSTFMT set ({envf}) the result is {d[envf]}, without it {d['real']}", cid, True))
     cov["slow_formatter_cases"] = nslow
     if nslow == 0:
         items.append(("determinism#harness-slow", "slow-formatter run gave no comparable pair: " + err, "", False))
@@ -891,7 +893,8 @@ def extra_c10(pid, tier, seed, workdir, known, write_replay):
             if len(p) >= 8 and p[0] == "s":
                 nums = lambda s: [int(x) for x in s.split(".") if x != ""]
                 pred[(f[2], p[1])] = dict(cls=p[2], plen=int(p[3]), stride=int(p[4]), poffs=nums(p[5]), noffs=nums(p[6]), nsize=int(p[7]),
-                                          align=int(p[8]) if len(p) > 8 else 1)
+                                          align=int(p[8]) if len(p) > 8 else 1,
+                                          rlens={int(kv.split(":")[0]): int(kv.split(":")[1]) for kv in p[9].split(".") if ":" in kv} if len(p) > 9 else {})
     out_path = os.path.join(workdir, "c10.out")
     b = subprocess.run([os.path.join(BIN, "batch"), "encase", "--cases", cases, "--out", out_path], stdout=subprocess.PIPE, stderr=subprocess.STDOUT, text=True)
     items, counts, measured = [], {}, 0
@@ -929,8 +932,9 @@ def extra_c10(pid, tier, seed, workdir, known, write_replay):
                 if p["stride"] == 0:
                     exp_lens = {0: p["plen"]}
                 else:
-                    last = p["poffs"][-1]
-                    exp_lens = {k: round_up(p["align"], last + max(k, 1) * p["stride"]) for k in lens}
+                    # lengths for k elements of the trailing runtime-sized array: Encase.runtimeLen, evaluated by the driver (the function
+                    # C10_runtime is about); a length the driver gives no prediction for is a machinery gap, not silently recomputed here
+                    exp_lens = {k: p["rlens"].get(k, -1) for k in lens}
                 if [o for o in offs] != p["poffs"] or any(lens.get(k) != e for k, e in exp_lens.items()):
                     items.append(("encase#transcription", f"struct {sname}: Ext.Encase predicts offsets {p['poffs']} len {exp_lens}, real encase wrote offsets {offs} len {lens}", cid, False))
                     continue
@@ -954,9 +958,10 @@ PROPS["C10"] = dict(
     lean_modules=["WgslVerif.Props.C10", "WgslVerif.Props.C10Struct"],
     theorems=["WgslVerif.C10_leaf", "WgslVerif.C10_struct_algorithm", "WgslVerif.C10_offsets_partial",
               "WgslVerif.C10S.C10_struct", "WgslVerif.C10S.C10_struct_exec", "WgslVerif.C10S.C10_struct_exec_offsets",
-              "WgslVerif.C10S.meta_of_natural", "WgslVerif.C10S.emitted_of_gen", "WgslVerif.C10S.structMeta_sound", "WgslVerif.C10S.Meta.det"],
+              "WgslVerif.C10S.C10_runtime", "WgslVerif.C10S.meta_of_natural", "WgslVerif.C10S.emitted_of_gen", "WgslVerif.C10S.structMeta_sound",
+              "WgslVerif.C10S.Meta.det"],
     driver_props=["C10"],
-    streams=lambda tier, seed: [("gen", "structs", seed, 100 if tier == "quick" else 3000), ("fixtures",), ("types",), ("names",), ("variants",)],
+    streams=lambda tier, seed: [("gen", "structs", seed, 100 if tier == "quick" else 3000), ("fixtures",), ("provoke",), ("types",), ("names",), ("variants",)],
     opts=q_opts([20, 68, 21], [20, 22, 68, 21, 23]),
     extra=extra_c10,
     rule="cases: generator profiles structs/general under encase + glam; every emitted ShaderType struct is constructed with sentinel values, written through the REAL "
@@ -1049,6 +1054,29 @@ def extra_c01(pid, tier, seed, workdir, known, write_replay):
     import c01_classify
     scounts, sitems = c01_classify.analyse(pred, modules, C01_PATTERNS)
     items += sitems
+    # the same modules as the REAL rustfmt prints them (option sets 96 + i: rustfmt on): the formatter path (pipe, fallback to the
+    # unformatted tokens) must hand rustc a module it accepts whenever the prettyplease path does
+    fm_cases = write_stream_file([("fixtures",), ("gen", "unicode", seed, 8 * n), ("gen", "general", seed, 10 * n)], os.path.join(workdir, "c01fmt.cases"))
+    fm_out = os.path.join(workdir, "c01fmt.out")
+    subprocess.run([os.path.join(BIN, "batch"), "check", "--cases", fm_cases, "--opts", "96,116", "--out", fm_out], stdout=subprocess.PIPE, stderr=subprocess.STDOUT, text=True)
+    nfm = 0
+    if os.path.exists(fm_out):
+        for line in open(fm_out):
+            if not line.startswith("(mod "):
+                continue
+            t = parse_sexp(line)[0]
+            cid, opt, verdict = sx(t[1]), int(t[2]), t[3]
+            nfm += 1
+            if verdict == "ok" or verdict[0] in ("permitted", "gen"):
+                continue
+            off = modules.get((cid, opt - 96))
+            if off is None or off[0] not in ("ok", "permitted"):
+                continue        # rejected without the formatter as well: classified above
+            what = sx(verdict[1])[:200] if verdict[0] == "syntax" else "; ".join(sx(e[1])[:80] for e in verdict[1:3])
+            items.append(("rustc#rejected-only-with-rustfmt-on", f"option set {opt} (rustfmt on): rustc rejects the module ({verdict[0]}: {what}) although it accepts the one generated with rustfmt off", cid, True))
+    counts["modules_compiled_with_rustfmt_on"] = nfm
+    if nfm == 0:
+        items.append(("rustc#harness-rustfmt-on", "batch check with rustfmt on produced no result", "", False))
     # the theorems' conclusions evaluated on the REAL output of the modules that meet their hypotheses
     for (cid, opt), detail in static_spec:
         items.append((signature_of_static(detail), f"option set {opt}: {detail[5:300]}", cid, True))
